@@ -253,7 +253,8 @@ func main() {
 	exh := 3
 	nGram, nMal, nApp := 1500, 700, 1500
 	if *tier == "thorough" {
-		exh, nGram, nMal, nApp = 4, 6000, 3000, 12000
+		exh, nGram, nMal, nApp = 5, 20000, 10000, 40000
+		m.ShardSize = 4000
 	}
 	m.ParserExh = exh
 	pin = append(pin, enumStrings(exh)...)
